@@ -51,3 +51,66 @@ void h_preempt(void) {
     }
     V_WITNESS("h_preempt end");
 }
+
+
+/* C17 (thread clause, second model): interface B's thread emits a Probe/Train+ACK (real sendProbeMsg) while
+ * interface A's thread is inside one of the platform calls of its own sendProbeMsg (the PREEMPT_AT-th:
+ * allocation, address getter, the descriptor's pause, a transmit, the release). Each interface must still
+ * transmit exactly its own frames. Catches state shared between threads that is not per-interface
+ * (e.g. a static scratch buffer). */
+static unsigned il_sends[2];
+static lltd_iface_state *il_stB;
+static ethernet_address_t il_src[2], il_dst[2]; static uint8_t il_pause[2], il_kind[2];
+
+static void il_hook(void) { (void)sendProbeMsg(il_src[1], il_dst[1], il_stB, &g_cfgB, il_pause[1], il_kind[1], true); }
+#ifdef V_PREEMPT
+static void v_preempt_target(void) { il_hook(); }
+#endif
+
+static void oracle_il(void *ctx, const uint8_t *f, size_t n) {
+    int w = (ctx == (void *)&g_cfgB) ? 1 : 0;
+    V_ASSERT(ctx == (void *)&g_cfgA || ctx == (void *)&g_cfgB, "C17: frames leave on a known interface");
+    const vcfg *c = w ? &g_cfgB : &g_cfgA;
+    const struct st_in *st = w ? &in.st2 : &in.st;
+    unsigned s = il_sends[w]++;
+    if (n != 32) { V_ASSERT(0, "C02: Probe/Train/ACK are 32 bytes"); return; }
+    if (s == 0) {
+        bool ok = f[F_OP] == (il_kind[w] == 1 ? 4 : 3) && mac6_eq(f + F_EDST, il_dst[w].a) && mac6_eq(f + F_ESRC, il_src[w].a) &&
+                  mac6_eq(f + F_RSRC, c->mac) && mac6_eq(f + F_RDST, il_dst[w].a) && f[F_SEQ] == 0 && f[F_SEQ + 1] == 0 && f[F_TOS] == 0;
+        V_ASSERT(ok, "C17: the Probe/Train an interface transmits is its own descriptor's frame although the other interface's thread ran in between (no cross-talk through shared state)");
+    } else if (s == 1) {
+        bool ok = f[F_OP] == 5 && mac6_eq(f + F_RDST, st->mreal) && (mac6_eq(f + F_EDST, st->mapp) || mac6_eq(f + F_EDST, st->mreal)) &&
+                  mac6_eq(f + F_ESRC, c->mac) && mac6_eq(f + F_RSRC, c->mac) && be16(f + F_SEQ) == st->seq;
+        V_ASSERT(ok, "C17: the ACK an interface transmits is its own although the other interface's thread ran in between");
+    } else {
+        V_ASSERT(0, "C17: no extra frames on an interface because another interface was served meanwhile");
+    }
+}
+
+void h_interleave(void) {
+    load_inputs();
+    setup_platform(0);
+    g_cfgB = in.cfg2; constrain_cfg(&g_cfgB, 0);
+#ifdef MTU_FIXED
+    g_cfgB.mtu = MTU_FIXED;
+#endif
+    g_class = CL_IL;
+    lltd_iface_state *sa = build_state(&g_cfgA, &in.st);
+    il_stB = build_state(&g_cfgB, &in.st2);
+    mac6_set(il_src[0].a, in.frame + 0); mac6_set(il_dst[0].a, in.frame + 6); il_pause[0] = in.frame[12]; il_kind[0] = in.frame[13] & 1;
+    mac6_set(il_src[1].a, in.frame2 + 0); mac6_set(il_dst[1].a, in.frame2 + 6); il_pause[1] = in.frame2[12]; il_kind[1] = in.frame2[13] & 1;
+#ifndef PREEMPT_AT
+#define PREEMPT_AT 0
+#endif
+#ifdef V_PREEMPT
+    g_portcalls = 0; g_preempt_at = PREEMPT_AT; g_preempt_armed = 1;          /* concrete per query: one inlined copy of B's call */
+#endif
+    (void)sendProbeMsg(il_src[0], il_dst[0], sa, &g_cfgA, il_pause[0], il_kind[0], true);
+#ifdef V_PREEMPT
+    if (g_preempt_armed) { g_preempt_armed = 0; il_hook(); }                  /* not scheduled inside: runs afterwards */
+#else
+    il_hook();
+#endif
+    V_ASSERT(il_sends[0] == 2 && il_sends[1] == 2, "C17: each interface transmits exactly its own Probe/Train and ACK however the two threads interleave at platform calls");
+    V_WITNESS("h_interleave end");
+}
